@@ -378,6 +378,12 @@ def meas_cases(tier, seed):
         for s in states:
             for m in measurement_names(d):
                 yield {"kind": "measure", "d": d, "state": s, "meas": m}
+    # the documented tolerance: outcome i keeps its normalised post-measurement state iff p_i > tol (zero matrix otherwise), in the list
+    # form and in the single-operator form alike (added after seeded change C19-10, which honoured tol on one path only)
+    for d in (2, 3):
+        for eps in ("1e-12", "1e-7", "1e-3"):
+            for tol in ("1e-15", "default", "1e-5", "1e-2"):
+                yield {"kind": "measure_tol", "d": d, "eps": eps, "tol": tol}
     for d in (2, 3):
         for m in measurement_names(d):
             for pert in ("none", "shrink", "neg", "nonherm"):
@@ -535,6 +541,35 @@ def meas_check(case):
             _, exc = call(measure, rho, sub, state_update=True)
             if exc is None:
                 return viol("incomplete Kraus set accepted with state_update=True", site="measure:completeness")
+        return ok(True)
+    if case["kind"] == "measure_tol":
+        eps = float(case["eps"])
+        tol = None if case["tol"] == "default" else float(case["tol"])
+        tol_eff = 1e-10 if tol is None else tol
+        if 0.1 < eps / tol_eff < 10:
+            return rejected("probability too close to the tolerance")
+        rho = np.diag([1.0 - (d - 1) * eps] + [eps] * (d - 1)).astype(complex)
+        ks = [np.zeros((d, d), dtype=complex) for _ in range(d)]
+        for i in range(d):
+            ks[i][i, i] = 1.0
+        kw = {} if tol is None else {"tol": tol}
+        out, exc = call(measure, rho, list(ks), state_update=True, **kw)
+        if exc is not None:
+            return viol("measure raised on a complete projective measurement: " + exc_text(exc), site="measure:exception")
+        for i, (K, o) in enumerate(zip(ks, out)):
+            born = float(rho[i, i].real)
+            single, exc = call(measure, rho, K, state_update=True, **kw)
+            if exc is not None:
+                return viol("measure raised in the single-operator form: " + exc_text(exc), site="measure:exception")
+            for form, (p, post) in (("list", o), ("single", single)):
+                post = np.asarray(post)
+                if abs(p - born) > 1e-15 + 1e-9 * born:
+                    return viol("probability is not Tr(K rho K^dagger)", site="measure:born", observed=float(p), expected=born)
+                want = K @ rho @ K.conj().T / born if born > tol_eff else np.zeros((d, d))
+                if np.abs(post - want).max() > 1e-8:
+                    return viol(f"{form} form: outcome with p = {born:g} and tol = {tol_eff:g} must have "
+                                + ("the normalised post-measurement state" if born > tol_eff else "the zero matrix"),
+                                site="measure:tol:" + form, observed=float(np.trace(post).real), expected=float(np.trace(want).real))
         return ok(True)
     if case["kind"] == "is_povm":
         ks, _ = build_measurement(d, case["meas"])
